@@ -67,6 +67,10 @@ const c09Spec = `{
       "security":[{"key":[]},{"basic":[],"tok":["w"]}],
       "parameters":[{"name":"id","in":"path","type":"integer","required":true},{"name":"q","in":"query","type":"string"},{"name":"X-Tok","in":"header","type":"string"},
         {"name":"body","in":"body","required":true,"schema":{"type":"object"}}],
+      "responses":{"200":{"description":"ok"}}},
+    "delete":{"operationId":"deleteItem","produces":["text/plain"],
+      "security":[{"key":["r"]},{}],
+      "parameters":[{"name":"id","in":"path","type":"integer","required":true},{"name":"q","in":"query","type":"string"},{"name":"X-Tok","in":"header","type":"string"}],
       "responses":{"200":{"description":"ok"}}}},
   "/items":{
     "post":{"operationId":"postItem","consumes":["text/plain"],
@@ -88,7 +92,7 @@ const c09Spec = `{
 // the entries of a Go map, so with two the order of route.Consumes / route.Produces (and with it the
 // winner of a tie in the negotiation, and the text of 415/406 messages) would differ from one router
 // build to the next. The API default (application/json) is appended behind it by AddRoute.
-var c09Ops = [][2]string{{"GET", "/items/{id}"}, {"PUT", "/items/{id}"}, {"POST", "/items"}, {"GET", "/items"}, {"GET", "/open"}}
+var c09Ops = [][2]string{{"GET", "/items/{id}"}, {"PUT", "/items/{id}"}, {"POST", "/items"}, {"GET", "/items"}, {"GET", "/open"}, {"DELETE", "/items/{id}"}}
 var c09Schemes = []string{"key", "basic", "tok"}
 
 // ---------------------------------------------------------------------------------------------
@@ -859,8 +863,11 @@ func c09GenReq(r *proto.Rng, tok string) c09Req {
 		q.method, q.path = "PUT", "/api/items/"+id
 	case 7, 8, 9:
 		q.method, q.path = "POST", "/api/items"
-	case 10, 11:
+	case 10:
 		q.method, q.path = "GET", "/api/items"
+	case 11:
+		// authentication optional, the anonymous alternative listed AFTER the credentialed one
+		q.method, q.path = "DELETE", "/api/items/"+id
 	case 12:
 		q.method, q.path = "GET", "/api/open"
 	case 13:
